@@ -218,34 +218,24 @@ func init() {
 		return symExternals["strings.Replace"](fr, append(append([]value{}, a...), -1))
 	}
 	symExt("strconv.ParseInt", func(fr *frame, a []value) value {
-		if asInt64(a[1]) == 16 {
-			if t, ok := parseHexProv(toBytes(a[0])); ok {
-				return tuple{mkScalar(t, types.Int64), nilErr}
-			}
-		}
-		if asInt64(a[1]) == 10 {
-			if x, _, ok := parseDecProv(toBytes(a[0])); ok && x.Sort.W == 64 {
-				return tuple{mkScalar(x, types.Int64), nilErr}
-			}
+		if r, ok := symParse(fr, toBytes(a[0]), int(asInt64(a[1])), int(asInt64(a[2])), true); ok {
+			return r
 		}
 		return callInterp(fr, "strconv", "ParseInt", a)
 	})
 	symExt("strconv.ParseUint", func(fr *frame, a []value) value {
-		if asInt64(a[1]) == 16 {
-			if t, ok := parseHexProv(toBytes(a[0])); ok {
-				return tuple{mkScalar(t, types.Uint64), nilErr}
-			}
-		}
-		if asInt64(a[1]) == 10 {
-			if x, neg, ok := parseDecProv(toBytes(a[0])); ok && !neg && x.Sort.W == 64 {
-				return tuple{mkScalar(x, types.Uint64), nilErr}
-			}
+		if r, ok := symParse(fr, toBytes(a[0]), int(asInt64(a[1])), int(asInt64(a[2])), false); ok {
+			return r
 		}
 		return callInterp(fr, "strconv", "ParseUint", a)
 	})
 	symExt("strconv.Atoi", func(fr *frame, a []value) value {
-		// avoid upstream's native Atoi external
-		r := callInterp(fr, "strconv", "ParseInt", []value{a[0], 10, 0}).(tuple)
+		var r tuple
+		if rr, ok := symParse(fr, toBytes(a[0]), 10, 0, true); ok {
+			r = rr.(tuple)
+		} else {
+			r = callInterp(fr, "strconv", "ParseInt", []value{a[0], 10, 0}).(tuple)
+		}
 		return tuple{conv(types.Typ[types.Int], types.Typ[types.Int64], r[0]), r[1]}
 	})
 	symExt("strconv.Itoa", func(fr *frame, a []value) value { return mkStr(decimalOf(a[0].(symv))) })
@@ -426,6 +416,153 @@ func init() {
 	})
 }
 
+// numError builds &strconv.NumError{fn, num, err} with err one of strconv.ErrSyntax / ErrRange.
+func numError(fr *frame, fn string, num value, which string) iface {
+	sp := fr.i.prog.ImportedPackage("strconv")
+	ensureInit(fr.i, sp)
+	g := sp.Var(which)
+	cell, ok := fr.i.globals[g]
+	if !ok {
+		unsupported("strconv.%s not initialised", which)
+	}
+	var v value = structure{fn, num, *cell}
+	return iface{t: types.NewPointer(sp.Type("NumError").Type()), v: &v}
+}
+
+// symParse parses a digit string with symbolic bytes as one term (no per-digit forking):
+// forks only on sign presence, overall syntactic validity and range.
+func symParse(fr *frame, bs []value, base, bitSize int, signed bool) (value, bool) {
+	if base != 10 && base != 16 && base != 8 {
+		return nil, false
+	}
+	fn := "ParseUint"
+	kind := types.Uint64
+	if signed {
+		fn = "ParseInt"
+		kind = types.Int64
+	}
+	orig := mkStr(bs)
+	zeroV := mkScalar(term.Const(64, 0), types.BasicKind(kind))
+	syntaxErr := func() value { return tuple{zeroV, numError(fr, fn, orig, "ErrSyntax")} }
+	if len(bs) == 0 {
+		return syntaxErr(), true
+	}
+	// whole-string provenance shortcuts
+	if base == 16 {
+		if t, ok := parseHexProv(bs); ok && len(bs) <= 15 {
+			return tuple{mkScalar(t, types.BasicKind(kind)), nilErr}, true
+		}
+	}
+	if base == 10 {
+		if x, neg, ok := parseDecProv(bs); ok && x.Sort.W == 64 && (signed || !neg) && bitSize == 64 || bitSize == 0 && ok && x != nil && x.Sort.W == 64 && (signed || !neg) {
+			return tuple{mkScalar(x, types.BasicKind(kind)), nilErr}, true
+		}
+	}
+	neg := false
+	if signed {
+		first := bs[0]
+		if c, ok := first.(byte); ok {
+			if c == '+' || c == '-' {
+				neg = c == '-'
+				bs = bs[1:]
+			}
+		} else {
+			vs := valueSet(byteTerm(first))
+			if vs.has('-') && Branch(term.Eq(byteTerm(first), term.Const(8, '-'))) {
+				neg = true
+				bs = bs[1:]
+			} else if vs.has('+') && Branch(term.Eq(byteTerm(first), term.Const(8, '+'))) {
+				bs = bs[1:]
+			}
+		}
+		if len(bs) == 0 {
+			return syntaxErr(), true
+		}
+	}
+	bitsPer := map[int]int{8: 3, 10: 4, 16: 4}[base]
+	if len(bs)*bitsPer > 60 {
+		return nil, false // possible 64-bit overflow: leave to the interpreted code
+	}
+	valid := term.True
+	val := term.Const(64, 0)
+	for _, b := range bs {
+		var d, ok *term.Term
+		if c, isC := b.(byte); isC {
+			dv := -1
+			switch {
+			case c >= '0' && c <= '9':
+				dv = int(c - '0')
+			case c >= 'a' && c <= 'f':
+				dv = int(c-'a') + 10
+			case c >= 'A' && c <= 'F':
+				dv = int(c-'A') + 10
+			}
+			if dv < 0 || dv >= base {
+				return syntaxErr(), true
+			}
+			d, ok = term.Const(64, uint64(dv)), term.True
+		} else {
+			t := byteTerm(b)
+			if nib, isHex := hexProv[t]; isHex && base == 16 {
+				d, ok = term.ZExt(64, nib), term.True
+			} else if nib, isHex := hexProvUpper[t]; isHex && base == 16 {
+				d, ok = term.ZExt(64, nib), term.True
+			} else {
+				rng := func(lo, hi byte) *term.Term {
+					return term.And(term.Cmp("bvule", term.Const(8, uint64(lo)), t), term.Cmp("bvule", t, term.Const(8, uint64(hi))))
+				}
+				hiDigit := byte('0' + base - 1)
+				if base > 10 {
+					hiDigit = '9'
+				}
+				isDig := rng('0', hiDigit)
+				dg := term.ZExt(64, term.Bin("bvsub", t, term.Const(8, '0')))
+				if base == 16 {
+					isLo, isUp := rng('a', 'f'), rng('A', 'F')
+					ok = term.OrN(isDig, isLo, isUp)
+					d = term.Ite(isDig, dg, term.Ite(isLo, term.ZExt(64, term.Bin("bvsub", t, term.Const(8, 'a'-10))), term.ZExt(64, term.Bin("bvsub", t, term.Const(8, 'A'-10)))))
+				} else {
+					ok, d = isDig, dg
+				}
+			}
+		}
+		valid = term.And(valid, ok)
+		val = term.Bin("bvadd", term.Bin("bvmul", val, term.Const(64, uint64(base))), d)
+	}
+	if !Branch(valid) {
+		return syntaxErr(), true
+	}
+	if bitSize == 0 {
+		bitSize = 64
+	}
+	if signed {
+		// cutoff = 2^(bitSize-1); val < cutoff, or neg && val == cutoff
+		cutoff := uint64(1) << uint(bitSize-1)
+		over := term.Not(term.Cmp("bvult", val, term.Const(64, cutoff)))
+		if neg {
+			over = term.Cmp("bvult", term.Const(64, cutoff), val)
+		}
+		if Branch(over) {
+			lim := term.Const(64, cutoff-1)
+			if neg {
+				lim = term.Neg(term.Const(64, cutoff))
+			}
+			return tuple{mkScalar(lim, types.Int64), numError(fr, fn, orig, "ErrRange")}, true
+		}
+		if neg {
+			val = term.Neg(val)
+		}
+		return tuple{mkScalar(val, types.Int64), nilErr}, true
+	}
+	if bitSize < 64 {
+		max := uint64(1)<<uint(bitSize) - 1
+		if Branch(term.Cmp("bvult", term.Const(64, max), val)) {
+			return tuple{mkScalar(term.Const(64, max), types.Uint64), numError(fr, fn, orig, "ErrRange")}, true
+		}
+	}
+	return tuple{mkScalar(val, types.Uint64), nilErr}, true
+}
+
 // callInterp runs the interpreted body of pkg.fn (bypassing externals).
 func callInterp(fr *frame, pkg, fn string, args []value) value {
 	p := fr.i.prog.ImportedPackage(pkg)
@@ -475,7 +612,7 @@ func compileRe(pat string) *reObj {
 	return r
 }
 
-func runeClassTerm(b value, runes []rune, fold bool) *term.Term {
+func normRunes(runes []rune, fold bool) []rune {
 	if len(runes) == 1 {
 		runes = []rune{runes[0], runes[0]}
 	}
@@ -487,6 +624,11 @@ func runeClassTerm(b value, runes []rune, fold bool) *term.Term {
 			runes = []rune{r, r, r + 32, r + 32}
 		}
 	}
+	return runes
+}
+
+func runeClassTerm(b value, runes []rune, fold bool) *term.Term {
+	runes = normRunes(runes, fold)
 	if c, ok := b.(byte); ok {
 		for i := 0; i+1 < len(runes); i += 2 {
 			if rune(c) >= runes[i] && rune(c) <= runes[i+1] {
@@ -496,6 +638,9 @@ func runeClassTerm(b value, runes []rune, fold bool) *term.Term {
 		return term.False
 	}
 	t := byteTerm(b)
+	if ans, ok := classDecide(t, runes); ok {
+		return term.BoolC(ans)
+	}
 	r := term.False
 	for i := 0; i+1 < len(runes); i += 2 {
 		lo, hi := runes[i], runes[i+1]
@@ -595,16 +740,17 @@ func (r *reObj) matchAt(in []value, start int) []int {
 				if pos >= len(in) {
 					return nil
 				}
-				var t *term.Term
+				ok := true
 				switch inst.Op {
 				case syntax.InstRuneAny:
-					t = term.True
 				case syntax.InstRuneAnyNotNL:
-					t = term.Not(term.Eq(byteTerm(in[pos]), term.Const(8, '\n')))
+					ok = !byteIs(in[pos], '\n')
 				default:
-					t = runeClassTerm(in[pos], inst.Rune, syntax.Flags(inst.Arg)&syntax.FoldCase != 0)
+					runes, fold := inst.Rune, syntax.Flags(inst.Arg)&syntax.FoldCase != 0
+					runes = normRunes(runes, fold)
+					ok = decideClass(in[pos], runes, runeClassTerm(in[pos], runes, false))
 				}
-				if !Branch(t) {
+				if !ok {
 					return nil
 				}
 				pos++
